@@ -14,6 +14,7 @@ import LinVerif.Lemmas.C14BitOps
 import LinVerif.Lemmas.C14FixedOffset
 import LinVerif.Lemmas.C14Delta
 import LinVerif.Lemmas.C14Facts
+import LinVerif.Lemmas.C14Stream
 
 namespace LinVerif.Props.C14
 open LinVerif LinVerif.Bits LinVerif.Varint
@@ -241,6 +242,106 @@ theorem tsd_roundtrip_without_time (start : Nat) (slots : Slots) (d0 : Dec) (lo 
           · exact Or.inr (Or.inl (by omega)))
     simpa using this
 
+/-- **Seek, dense prefix.** `Seek(s)` on a freshly reset decoder (any object) succeeds when every slot
+before `s` holds a value, and leaves the decoder exactly in front of `s`: the slot-addressed reads
+that follow (`GetValue(s), GetValue(s+1), …`) return the encoded entries, i.e. `Seek` followed by
+reads has the `GetValue` semantics of `tsd_slot_read_agrees`. -/
+theorem tsd_seek_then_read (start : Nat) (vs : List Nat) (rest : Slots) (d0 : Dec) (k : Nat)
+    (hvs : ∀ v ∈ vs, v < 2 ^ 64) (hrest : ∀ v, some v ∈ rest → v < 2 ^ 64) (hne : rest ≠ [])
+    (hb : start + (vs.length + rest.length) ≤ 65536) (hn : vs.length + rest.length ≤ 65535) :
+    ∃ bytes d', tsdEncode start (vs.map some ++ rest) = some bytes ∧
+      (d0.reset bytes).seek (start + vs.length) = (true, d') ∧
+      (d'.getValues (List.range' (start + vs.length) k)).1
+        = (List.range' (start + vs.length) k).map (slotAt start (vs.map some ++ rest)) := by
+  have hrl : 0 < rest.length := List.length_pos_iff.mpr hne
+  have hvs' : ∀ v ∈ vs, v < two64 := fun v hv => by simpa [two64] using hvs v hv
+  have hok : slotsOk (vs.map some ++ rest) := by
+    intro v hv
+    simp only [List.mem_append, List.mem_map] at hv
+    rcases hv with ⟨a, ha, hav⟩ | hv
+    · injection hav with hav; subst hav; exact hvs' a ha
+    · simpa [two64] using hrest v hv
+  have hlen : (vs.map some ++ rest).length = vs.length + rest.length := by simp
+  obtain ⟨out, hbytes, _, hout, hlt, pad, hbits⟩ :=
+    Enc.bytes_spec start (vs.map some ++ rest) hok (by simp [hne]) (by omega) (by omega) (by omega)
+  have hat := Dec.reset_at d0 start (start + (vs.map some ++ rest).length - 1) out (by omega) (by omega) hout hlt
+  rw [hbits] at hat
+  obtain ⟨d', hloop, hat'⟩ := Dec.seekLoop_dense vs rest 0 Xor.Enc.fresh _ start _ _ 65537 hat hvs'
+    (by omega) (by omega) (by omega) (by omega)
+  refine ⟨_, d', hbytes, ?_, ?_⟩
+  · unfold Dec.seek
+    have c : ¬ (start + vs.length > (d0.reset (le16 start ++ le16 (start + (vs.map some ++ rest).length - 1) ++ out)).endTime ∨
+        start + vs.length < (d0.reset (le16 start ++ le16 (start + (vs.map some ++ rest).length - 1) ++ out)).startTime) := by
+      rw [hat.en, hat.st]; omega
+    rw [if_neg c]
+    simpa using hloop
+  · have hslot : slotsOk rest := fun v hv => by simpa [two64] using hrest v hv
+    have := Dec.getValues_spec k (start + vs.length) rest (0 + vs.length) _ d' start
+      (start + (vs.map some ++ rest).length - 1) _ hat' hslot (by omega) (by omega) (by omega)
+      (Or.inr (Or.inl (by omega)))
+    rw [this]
+    apply List.map_congr_left
+    intro x hx
+    have hx' := (List.mem_range'_1.mp hx).1
+    have hd : (vs.map some ++ rest).drop vs.length = rest := by
+      rw [List.drop_left' (by simp)]
+    have := slotAt_drop start (vs.map some ++ rest) vs.length x hx'
+    rw [hd] at this
+    simpa using this
+
+/-- **Seek across a gap.** When an empty slot lies before the target, `Seek` returns `false` after
+consuming the present slots and that empty one; the decoder stays consistent: reads continue
+correctly from the slot after the gap. -/
+theorem tsd_seek_gap (start : Nat) (vs : List Nat) (rest : Slots) (d0 : Dec) (s k : Nat)
+    (hvs : ∀ v ∈ vs, v < 2 ^ 64) (hrest : ∀ v, some v ∈ rest → v < 2 ^ 64)
+    (hb : start + (vs.length + 1 + rest.length) ≤ 65536) (hn : vs.length + 1 + rest.length ≤ 65535)
+    (hs1 : start + vs.length < s) (hs2 : s ≤ start + (vs.length + 1 + rest.length) - 1) :
+    ∃ bytes d', tsdEncode start (vs.map some ++ none :: rest) = some bytes ∧
+      (d0.reset bytes).seek s = (false, d') ∧
+      (d'.getValues (List.range' (start + vs.length + 1) k)).1
+        = (List.range' (start + vs.length + 1) k).map (slotAt start (vs.map some ++ none :: rest)) := by
+  have hvs' : ∀ v ∈ vs, v < two64 := fun v hv => by simpa [two64] using hvs v hv
+  have hok : slotsOk (vs.map some ++ none :: rest) := by
+    intro v hv
+    simp only [List.mem_append, List.mem_map, List.mem_cons] at hv
+    rcases hv with ⟨a, ha, hav⟩ | hv | hv
+    · injection hav with hav; subst hav; exact hvs' a ha
+    · exact absurd hv (by simp)
+    · simpa [two64] using hrest v hv
+  have hlen : (vs.map some ++ none :: rest).length = vs.length + 1 + rest.length := by simp; omega
+  obtain ⟨out, hbytes, _, hout, hlt, pad, hbits⟩ :=
+    Enc.bytes_spec start (vs.map some ++ none :: rest) hok (by simp) (by omega) (by omega) (by omega)
+  have hat := Dec.reset_at d0 start (start + (vs.map some ++ none :: rest).length - 1) out (by omega) (by omega) hout hlt
+  rw [hbits] at hat
+  obtain ⟨d', hloop, hat'⟩ := Dec.seekLoop_gap vs rest 0 Xor.Enc.fresh _ start _ _ 65537 s hat hvs'
+    (by omega) (by omega) (by omega) (by omega) (by omega)
+  refine ⟨_, d', hbytes, ?_, ?_⟩
+  · unfold Dec.seek
+    have c : ¬ (s > (d0.reset (le16 start ++ le16 (start + (vs.map some ++ none :: rest).length - 1) ++ out)).endTime ∨
+        s < (d0.reset (le16 start ++ le16 (start + (vs.map some ++ none :: rest).length - 1) ++ out)).startTime) := by
+      rw [hat.en, hat.st]; omega
+    rw [if_neg c]
+    exact hloop
+  · have hslot : slotsOk rest := fun v hv => by simpa [two64] using hrest v hv
+    have := Dec.getValues_spec k (start + vs.length + 1) rest (0 + vs.length + 1) _ d' start
+      (start + (vs.map some ++ none :: rest).length - 1) _ hat' hslot (by omega) (by omega) (by omega)
+      (Or.inr (Or.inl (by omega)))
+    rw [this]
+    apply List.map_congr_left
+    intro x hx
+    have hx' := (List.mem_range'_1.mp hx).1
+    have hd : (vs.map some ++ none :: rest).drop (vs.length + 1) = rest := by
+      have : vs.map some ++ none :: rest = (vs.map some ++ [none]) ++ rest := by simp
+      rw [this, List.drop_left' (by simp)]
+    have := slotAt_drop start (vs.map some ++ none :: rest) (vs.length + 1) x (by omega)
+    rw [hd] at this
+    have e : start + (0 + vs.length + 1) = start + (vs.length + 1) := by omega
+    rw [e]; exact this
+
+/-- stated guard: a target outside `[startTime, endTime]` is refused without touching the decoder -/
+theorem tsd_seek_out_of_range (d : Dec) (s : Nat) (h : s > d.endTime ∨ s < d.startTime) : d.seek s = (false, d) := by
+  simp [Dec.seek, h]
+
 /-- stated guard: an encoder into which no slot was appended returns `nil` (no block at all) -/
 theorem tsd_empty_is_nil (start : Nat) : tsdEncode start [] = none := Enc.bytes_empty start
 
@@ -450,6 +551,216 @@ theorem delta_empty_guard :
 
 end Delta
 
+/-! ## 7b. fault-then-reuse: Reset after ANY prior use, failed reads included -/
+
+/-- operations on a TSD decoder object, as a reuse history -/
+inductive DecOp
+  | reset (data : List Nat)
+  | resetRange (data : List Nat) (s e : Nat)
+  | next | hasValue | value
+  | hasValueWithSlot (s : Nat) | getValue (s : Nat) | seek (s : Nat)
+
+def runDec : Dec → List DecOp → Dec
+  | d, [] => d
+  | d, .reset data :: ops => runDec (d.reset data) ops
+  | d, .resetRange data s e :: ops => runDec (d.resetWithTimeRange data s e) ops
+  | d, .next :: ops => runDec d.next.2 ops
+  | d, .hasValue :: ops => runDec d.hasValue.2 ops
+  | d, .value :: ops => runDec d.value.2 ops
+  | d, .hasValueWithSlot s :: ops => runDec (d.hasValueWithSlot s).2 ops
+  | d, .getValue s :: ops => runDec (d.getValue s).2 ops
+  | d, .seek s :: ops => runDec (d.seek s).2 ops
+
+/-- **reset_after_error_eq_fresh.** Whatever happened to the objects before — any history of calls,
+on any (truncated, corrupt) inputs, including reads that failed and left the sticky errors of the bit
+reader, the XOR decoder and the TSD decoder set — the state after `Reset` equals the fresh state on
+every field the methods read. So a pooled decoder that hit a bad block decodes the next good block
+exactly (`tsd_roundtrip` / `tsd_slot_read_agrees` take ANY decoder object `d0`). -/
+theorem reset_after_error_eq_fresh (d0 : Dec) (history : List DecOp) (data : List Nat) (s e : Nat)
+    (xd : Xor.Dec) (r : Reader) (h : 4 < data.length) :
+    (runDec d0 history).reset data = Dec.fresh data ∧
+    (runDec d0 history).resetWithTimeRange data s e = Dec.zero.resetWithTimeRange data s e ∧
+    (xd.next r).2.1.reset = Xor.Dec.fresh ∧ xd.reset = Xor.Dec.fresh ∧
+    (r.reset.err = false ∧ r.reset.count = 0 ∧ r.reset.b = 0) :=
+  ⟨tsd_decoder_reset_eq_fresh _ data h, tsd_decoder_reset_range_eq_fresh _ data s e, rfl, rfl, rfl, rfl, rfl⟩
+
+/-- the error states are reachable: a dense block cut inside its first value drives all three layers
+into their error state (this is the fault the harness injects before reuse) -/
+example : let d := runDec (Dec.fresh [0, 0, 1, 0, 0xff, 0xff, 0xff]) [.getValue 0, .getValue 1, .value]
+    d.err = true ∧ d.x.err = true ∧ d.r.err = true := by decide +kernel
+
+/-- and after `Reset` on a good block that very object decodes it exactly -/
+example : ∃ bytes, tsdEncode 7 [some 5, none, some 6] = some bytes ∧
+    (((runDec (Dec.fresh [0, 0, 1, 0, 0xff, 0xff, 0xff]) [.getValue 0, .getValue 1, .value]).reset bytes).getValues
+      (List.range' 7 3)).1 = [some 5, none, some 6] := by
+  obtain ⟨bytes, h1, h2⟩ := tsd_slot_read_agrees 7 [some 5, none, some 6]
+    (runDec (Dec.fresh [0, 0, 1, 0, 0xff, 0xff, 0xff]) [.getValue 0, .getValue 1, .value]) 7 3
+    (by intro v hv; simp at hv; omega) (by simp) (by decide) (by decide) (by decide)
+  exact ⟨bytes, h1, by rw [h2]; decide⟩
+
+/-! ## 7c. malformed input: the error branches of the decoders -/
+
+/-- XOR decoder: once an error is recorded, `Next()` is `false` and nothing moves until `Reset` -/
+theorem xor_error_is_sticky (d : Xor.Dec) (r : Reader) (h : d.err = true) : d.next r = (false, d, r) := by
+  simp [Xor.Dec.next, h]
+
+/-- bit reader at the end of the buffer (no partial byte left): `ReadBit` / `ReadByte` report the error -/
+theorem bitreader_eof (r : Reader) (hc : r.count = 0) (he : r.buf.length ≤ r.idx) :
+    r.readBit.2.1 = true ∧ r.readByte.2.1 = true ∧ (r.readBits 1).1 = none ∧ (r.readBits 8).1 = none := by
+  have hg : r.buf[r.idx]? = none := List.getElem?_eq_none he
+  have h1 : r.readBit.2.1 = true := by simp [Reader.readBit, Reader.getByte, hc, hg]
+  have h2 : r.readByte.2.1 = true := by simp [Reader.readByte, Reader.getByte, hc, hg]
+  have e1 : r.readBit = (r.readBit.1, true, r.readBit.2.2) := by rw [← h1]
+  have e2 : r.readByte = (r.readByte.1, true, r.readByte.2.2) := by rw [← h2]
+  refine ⟨h1, h2, ?_, ?_⟩
+  · show (match r.readBytesAcc 0 0 with
+      | (none, r1) => (none, r1)
+      | (some u, r1) => r1.readBitsAcc u 1).1 = none
+    simp only [Reader.readBytesAcc, Reader.readBitsAcc]
+    rw [e1]; rfl
+  · show (match r.readBytesAcc 0 1 with
+      | (none, r1) => (none, r1)
+      | (some u, r1) => r1.readBitsAcc u 0).1 = none
+    simp only [Reader.readBytesAcc]
+    rw [e2]; rfl
+
+/-- TSD decoder on an exhausted block: `HasValue` is `false` and records the error; an object that was
+never reset (pool's zero value) answers `false` / `0` without touching anything -/
+theorem tsd_decoder_error_branches (d : Dec) :
+    (d.inited = true → d.r.count = 0 → d.r.buf.length ≤ d.r.idx → d.hasValue.1 = false ∧ d.hasValue.2.err = true) ∧
+    (d.inited = false → d.hasValue = (false, d) ∧ d.value = (0, d)) := by
+  constructor
+  · intro hi hc he
+    have hg : d.r.buf[d.r.idx]? = none := List.getElem?_eq_none he
+    simp [Dec.hasValue, hi, Reader.readBit, Reader.getByte, hc, hg]
+  · intro hi
+    simp [Dec.hasValue, Dec.value, hi]
+
+/-- fixed-offset decoder: `Unmarshal` rejects short input and widths above 4; whatever it accepted,
+`Get` only ever answers from inside the offsets block and `GetBlock` only ever returns a slice of
+the data block -/
+theorem fixedoffset_error_branches (d0 d : FixedOffset.Dec) (data : List Nat) :
+    (data.length < 2 → (d0.unmarshal data).1 = .error .tooShort) ∧
+    (2 ≤ data.length → data.getD 0 0 > 4 → (d0.unmarshal data).1 = .error .badWidth) ∧
+    (∀ i v, d.get i = some v → 0 ≤ i * d.width ∧ i * d.width + d.width ≤ d.block.length ∧ d.width ≤ 4) ∧
+    (∀ i blk, d.getBlock i data = .ok blk → blk.length ≤ data.length) := by
+  refine ⟨?_, ?_, ?_, ?_⟩
+  · intro h; simp [FixedOffset.Dec.unmarshal, h]
+  · intro h1 h2
+    have h1' : ¬ data.length < 2 := by omega
+    have h4 : (4 : Int) < ((data[0]?.getD 0 : Nat) : Int) := by
+      have : data.getD 0 0 = data[0]?.getD 0 := by simp [List.getD]
+      omega
+    simp [FixedOffset.Dec.unmarshal, h1', h4]
+  · intro i v h
+    unfold FixedOffset.Dec.get at h
+    simp only at h
+    split at h
+    · exact absurd h (by simp)
+    · rename_i hc
+      split at h
+      · exact absurd h (by simp)
+      · rename_i hc2
+        omega
+  · intro i blk h
+    unfold FixedOffset.Dec.getBlock at h
+    split at h
+    · exact absurd h (by simp)
+    · simp only at h
+      split at h
+      · exact absurd h (by simp)
+      · injection h with h
+        rw [← h]
+        simp only [List.length_drop, List.length_take]
+        omega
+
+/-- delta decoder: a non-positive announced count yields nothing -/
+theorem delta_hasNext_false (d : DeltaPack.Dec) (h : d.pos ≤ 0) : d.hasNext = false := by
+  simp [DeltaPack.Dec.hasNext]; omega
+
+/-- lindb's `readUvarint`: empty input is EOF, an 11-byte run is an overflow (value so far returned) -/
+theorem uvarint_error_branches :
+    readUvarint [] = (0, [], .eof) ∧
+    (readUvarint [255, 255, 255, 255, 255, 255, 255, 255, 255, 255, 1]).2.2 = .overflow ∧
+    (readUvarint [255, 255, 255, 255, 255, 255, 255, 255, 255, 2]).2.2 = .overflow ∧
+    (readUvarint [255, 255]).2.2 = .eof := by decide +kernel
+
+/-! ## 7d. pkg/stream reader / writer and the multi-field TSD stream -/
+
+section StreamCodec
+open LinVerif.Stream
+
+/-- fixed-width little-endian and varint fields written by `BufferWriter` are read back by `Reader`,
+whatever follows in the buffer -/
+theorem stream_roundtrip (orig rest : List Nat) (a b c u : Nat) (i : Int)
+    (ha : a < 2 ^ 16) (hb : b < 2 ^ 32) (hc : c < 2 ^ 64) (hu : u < 2 ^ 64) (hi : -(2 ^ 63 : Int) ≤ i ∧ i < 2 ^ 63) :
+    (⟨orig, Stream.le16 a ++ rest, .none⟩ : Stream.Reader).readUintN 2 = (a, ⟨orig, rest, .none⟩) ∧
+    (⟨orig, le32 b ++ rest, .none⟩ : Stream.Reader).readUintN 4 = (b, ⟨orig, rest, .none⟩) ∧
+    (⟨orig, le64 c ++ rest, .none⟩ : Stream.Reader).readUintN 8 = (c, ⟨orig, rest, .none⟩) ∧
+    (⟨orig, putUvarint u ++ rest, .none⟩ : Stream.Reader).readUvarint64 = (u, ⟨orig, rest, .none⟩) ∧
+    (⟨orig, putVarint i ++ rest, .none⟩ : Stream.Reader).readVarint64 = (i, ⟨orig, rest, .none⟩) :=
+  ⟨readUint16_put orig rest a (by simpa using ha), readUint32_put orig rest b (by simpa using hb),
+   readUint64_put orig rest c (by simpa using hc), readUvarint64_put orig rest u (by simpa [two64] using hu),
+   readVarint64_put orig rest i (by simpa [two63] using hi.1) (by simpa [two63] using hi.2)⟩
+
+/-- stated guards of `ReadSlice`: a negative length is refused, a length past the end returns what is
+left and records EOF, and nothing is returned while an error is pending -/
+theorem stream_readSlice_guards (r : Stream.Reader) (n : Int) :
+    (n < 0 → (r.readSlice n).1 = [] ∧ (r.readSlice n).2.err = .unexpected) ∧
+    (0 ≤ n → r.err = .none → n.toNat > r.rem.length → (r.readSlice n).1 = r.rem ∧ (r.readSlice n).2.err = .eof) ∧
+    (0 ≤ n → r.err ≠ .none → r.readSlice n = ([], r)) := by
+  refine ⟨?_, ?_, ?_⟩
+  · intro h; simp [Stream.Reader.readSlice, h]
+  · intro h0 he hn
+    have : ¬ n < 0 := by omega
+    simp [Stream.Reader.readSlice, this, he, hn]
+  · intro h0 he
+    have : ¬ n < 0 := by omega
+    simp [Stream.Reader.readSlice, this, he]
+
+/-- **tsd_stream_roundtrip.** `NewTSDStreamWriter(s, e)`, any number of `WriteField(id, data)`, then
+`NewTSDStreamReader` with whatever decoder the pool hands out: the time range comes back, the
+`HasNext/Next` loop yields exactly the written `(id, data)` pairs in order and then stops, and
+after each `Next` the shared field decoder is in the state `ResetWithTimeRange(data, s, e)` gives a
+zero decoder — so each field is then read as in `tsd_roundtrip_without_time`. -/
+theorem tsd_stream_roundtrip (s e : Nat) (fs : List Stream.Field) (pooled : Dec) (fuel : Nat)
+    (hs : s < 2 ^ 16) (he : e < 2 ^ 16) (hok : ∀ f ∈ fs, f.1 < 2 ^ 16 ∧ f.2.length < 2 ^ 32) (hf : fs.length < fuel) :
+    let sr := TsdStreamReader.new (writeFields (tsdStreamNew s e) fs).buf pooled
+    sr.startTime = s ∧ sr.endTime = e ∧
+    (TsdStreamReader.readAll fuel sr).1.map (fun x => (x.1, x.2.1)) = fs ∧
+    ∀ i (h : i < fs.length) (h2 : i < (TsdStreamReader.readAll fuel sr).1.length),
+      ((TsdStreamReader.readAll fuel sr).1[i]).2.2 = Dec.zero.resetWithTimeRange fs[i].2 s e := by
+  have hok' : ∀ f ∈ fs, fieldOk f := fun f hf => by
+    have := hok f hf
+    exact ⟨by simpa using this.1, by simpa using this.2⟩
+  have hbuf : (writeFields (tsdStreamNew s e) fs).buf = Stream.le16 s ++ (Stream.le16 e ++ fs.flatMap encodeField) := by
+    rw [writeFields_buf]
+    simp [tsdStreamNew, Stream.Writer.putUint16, Stream.Writer.fresh, List.append_assoc]
+  have hnew : TsdStreamReader.new (writeFields (tsdStreamNew s e) fs).buf pooled
+      = ⟨⟨(writeFields (tsdStreamNew s e) fs).buf, fs.flatMap encodeField, .none⟩, s, e, pooled⟩ := by
+    unfold TsdStreamReader.new
+    rw [hbuf, Stream.Reader.fresh, readUint16_put _ _ s (by simpa using hs)]
+    simp only
+    rw [readUint16_put _ _ e (by simpa using he)]
+  intro sr
+  have hsr : sr = ⟨⟨(writeFields (tsdStreamNew s e) fs).buf, fs.flatMap encodeField, .none⟩, s, e, pooled⟩ := hnew
+  rw [hsr]
+  obtain ⟨decs, h1, h2, h3, h4⟩ := readAll_spec fs (writeFields (tsdStreamNew s e) fs).buf s e pooled fuel hok' hf
+  refine ⟨rfl, rfl, h1, ?_⟩
+  intro i hi hi2
+  have hi3 : i < decs.length := by omega
+  obtain ⟨d0, hd0⟩ := h4 i hi hi3
+  have : ((TsdStreamReader.readAll fuel ⟨⟨(writeFields (tsdStreamNew s e) fs).buf, fs.flatMap encodeField, .none⟩, s, e, pooled⟩).1[i]).2.2
+      = decs[i] := by
+    have := congrArg (fun l => l[i]?) h2
+    simp only [List.getElem?_map] at this
+    rw [List.getElem?_eq_getElem hi2, List.getElem?_eq_getElem hi3] at this
+    simpa using this
+  rw [this, hd0]
+  exact tsd_decoder_reset_range_eq_fresh d0 _ s e
+
+end StreamCodec
+
 /-! ## non-vacuity: the hypotheses are satisfiable by non-trivial inputs -/
 
 /-- a NaN with payload, an empty slot, -0.0, a subnormal: block starting at slot 65000 -/
@@ -515,6 +826,20 @@ theorem tsd_encoder_reset_calls_expected :
     Generated.C14.tsdEncoderResetCalls = ["bitBuffer.Reset", "bitWriter.Reset", "values.Reset", "timeBitBuf.Reset"] ∧
     Generated.C14.tsdEncoderRestWithStartTimeCalls = ["e.Reset"] ∧
     Generated.C14.tsdEncoderRestWithStartTimeFields = ["startTime", "count", "err"] := ⟨rfl, rfl, rfl⟩
+
+/-- the pool accessors: `GetTSDEncoder` re-arms a pooled encoder with `RestWithStartTime` (count, err and
+buffers), `Release*` only puts the object back, decoders are handed out as they are (callers `Reset`);
+`snappyWriter.Bytes` copies before it resets its buffer -/
+theorem pool_calls_expected :
+    Generated.C14.getTSDEncoderCalls = ["encoderPool.Get", "NewTSDEncoder", "encoder.RestWithStartTime"] ∧
+    Generated.C14.releaseTSDEncoderCalls = ["encoderPool.Put"] ∧
+    Generated.C14.getTSDDecoderCalls = ["decoderPool.Get"] ∧
+    Generated.C14.releaseTSDDecoderCalls = ["decoderPool.Put"] ∧
+    Generated.C14.getFixedOffsetDecoderCalls = ["fixedOffsetDecoderPool.Get"] ∧
+    Generated.C14.releaseFixedOffsetDecoderCalls = ["fixedOffsetDecoderPool.Put"] ∧
+    Generated.C14.snappyWriterBytesCalls = ["buffer.Bytes", "len", "make", "copy", "buffer.Reset", "writer.Reset"] ∧
+    Generated.C14.snappyReaderUncompressCalls = ["defer:?", "compressed.Write", "io.Copy", "decompressed.Bytes"] :=
+  ⟨rfl, rfl, rfl, rfl, rfl, rfl, rfl, rfl⟩
 
 theorem tsd_encoder_bytes_calls_expected :
     Generated.C14.tsdEncoderBytesCalls = ["FlushFunc", "timeBitBuf.Reset", "stream.PutUint16", "stream.PutUint16",
